@@ -23,7 +23,8 @@ CHECKS["C03"] = {
              "TM/TAA coherence: each store to one representation is followed on every path to a normal exit by the "
              "sync that reads it (no stale side, no lost write), the sync functions derive one side only from the "
              "other, and nothing outside class tm writes the payload. A necessary condition of the property; the "
-             "numerical inverse-ness of exp/log to 5e-6 is not decided here (see C01/C02). Also (R03.4): every port primitive the sync functions reach has the reference's normal form."),
+             "numerical inverse-ness of exp/log to 5e-6 is not decided here (see C01/C02). Also (R03.4): every port primitive the sync functions reach has the reference's normal form."
+             ' R03.5 also covers the converse direction: a transform that a method of tm builds and hands out (copy()) keeps no array of `self` (NumPy view / copy table: np.asarray of a float array is the array itself).'),
     "note": ("Trusted: NumPy view/copy semantics table (sa/engine/alias.py); objects enter public methods coherent "
              "(proved inductively by the same rule); exceptional exits on invalid inputs are out of scope."),
 }
@@ -58,7 +59,8 @@ CHECKS["C12"] = {
              "right operand into the left operand's frame. The numerical identities (A->B->C = A->C to 1e-8) then rest "
              "on the SE(3) algebra decided under C01/C04 and are not themselves decided. Also (R12.5): closure obligations on the primitives under changeFrame; identity-element branches (x + 0, x * 1) are recognised as value-preserving. R12.6: a 6-element array operand of + / - (either side) meets the 6x1 payload as a column (case analysis on isinstance(other, np.ndarray) and len(other) == 6), so (a + b) - b = a holds for array b."
              " R12.7: operator dispatch - when a subclass of Screw overrides a reflected + / -, Python answers `Screw <op> Subclass` with that method first; the Screw-operand branch it reaches (through super() if it delegates) must reconcile the frames, not combine the raw payloads."
-             " R12.8: the frame equality behind the `frame == frame` short circuits of changeFrame / + / - (tm.__eq__) has an absolute closeness threshold <= 1e-8 and no larger relative part (allclose / isclose / max-abs / norm forms with constant tolerances), so two different frames are never treated as one beyond the property's bound."),
+             " R12.8: the frame equality behind the `frame == frame` short circuits of changeFrame / + / - (tm.__eq__) has an absolute closeness threshold <= 1e-8 and no larger relative part (allclose / isclose / max-abs / norm forms with constant tolerances), so two different frames are never treated as one beyond the property's bound."
+             ' R12.9: Wrench(...) calls inside class Wrench either wrap a value known to be a Screw (whose frame is adopted) or carry self.frame_applied in the frame slot, on every path - a raw payload wrapped without it records the identity frame.'),
     "note": "Trusted: globalToLocal(a,b)=inv(a)*b and adjoint() (decided under C01/C04); NumPy broadcasting semantics.",
 }
 
@@ -75,7 +77,8 @@ CHECKS["C16"] = {
              "every budget >= 1. Numerical distances and the R-tree's nearest-neighbour answers are not decided. Also: R16.5 strict improvement is decided on must-hold facts at the re-parenting cost store (guard clauses understood); R16.8 the choose-parent scan visits every neighbour the query returned (no break/return, full range). R16.9: the spatial index stores and queries a node at the point box of its own position for each supported dimensionality; a node is inserted without a parent only under the fact that the neighbour query came back empty; the goal is appended to the path unconditionally."
              " R16.6: the path is read positionally (parent walk, append + reverse idiom accepted); setParent does not rewrite the stored cost (the cost is the planner's, measured with the planner's distance)."
              " R16.6 also: generateTree hands generalGenerateTree the planner's own distance and obstruction applied to exactly the two nodes (a pre-filtered obstruction subset is a violation)."
-             ' R16.9 accepts copies of the pose (tm(p), p.copy()) and reports any call that rewrites the pose (or the copy the coordinates are read from) between getPosition() and the index call.'),
+             ' R16.9 accepts copies of the pose (tm(p), p.copy()) and reports any call that rewrites the pose (or the copy the coordinates are read from) between getPosition() and the index call.'
+             ' R16.11: RRTStar.distance is the per-call selection between arcDistance (dmode 1) and distance (normal-form equality, with a path-summary fallback), nothing remembered between calls.'),
     "note": "Trusted: purity of caller-supplied callbacks; rtree nearest() (library).",
 }
 
@@ -92,7 +95,8 @@ CHECKS["C15"] = {
              " R15.3: addObstruction stores, for each axis, both corner ends (in either order, or as min/max) and appends exactly one box on every path; no registered box is dropped."
              " R15.5: the corners read by the test are the corners registered: the six-vector constructor form of tm stores entries 0..2 of its argument in rows 0..2 (element-flow evaluation, both rpy flags) and nothing it calls rewrites those rows in place; indexing reads the six-vector."
              " R15.5 also: the copy form of the tm constructor gives the copy arrays of its own (node poses built from one template do not share a position buffer)."
-             ' R15.6: a node keeps the position it is given - PathNode.__init__ binds self.position to its argument or a copy on every path (tm(argument) would read a 3-sequence as a rotation) and getPosition returns that field.'),
+             ' R15.6: a node keeps the position it is given - PathNode.__init__ binds self.position to its argument or a copy on every path (tm(argument) would read a 3-sequence as a rotation) and getPosition returns that field.'
+             ' R15.4 also reports any method that deletes, pops, clears or overwrites entries of the obstruction list (stated imprecision: an explicit removal API would be reported too).'),
     "note": "Trusted: separating-axis theorem for a segment and an axis-aligned box; NumPy element-wise arithmetic.",
 }
 
@@ -110,7 +114,8 @@ CHECKS["C02"] = {
              "'reported IK success meets the tolerances'. A behaviour-preserving refactor that needs an equivalence outside "
              "N1..N16 would be reported as DIFFERENT (stated false-alarm exposure; renames, temporaries, reordering of "
              "independent stores, r_/c_ vs slice stores, dot vs @ are covered and part of the benign-twin self-test). "
-             "Agreement of compiled floating-point results to 1e-9 is not decided."),
+             "Agreement of compiled floating-point results to 1e-9 is not decided."
+             ' The named helpers behind N1 / N2 / N4 / N7 (Norm, SafeTrace, SafeCopy, SafeDot, MatMul, SafeClip) are compared with the definitions the rules assume.'),
     "note": ("Trusted: the vendored reference as the semantics; Numba compiles the accepted NumPy subset with NumPy "
              "semantics; shape contracts in sa/engine/mrspec.py; NumPy type stub as attribute oracle."),
 }
@@ -126,7 +131,8 @@ CHECKS["C01"] = {
              "half-turn branches, the exponentials divide by theta only off the near-zero branch, and all 19 primitives "
              "have the same normal form as modern_robotics 1.1.1. The numerical identities log(exp(x)) = x, exp(log(T)) = T, "
              "inv(T)T = I, Ad homomorphism to 5e-6 are NOT decided: they rest on the reference formulas (trusted base)."
-             " R01.5: no rigid-motion primitive writes into an array it is given (effects summary through callees and views): the identities are statements about the caller's x, T and w."),
+             " R01.5: no rigid-motion primitive writes into an array it is given (effects summary through callees and views): the identities are statements about the caller's x, T and w."
+             ' The helpers that the rewrite rules read by name (Norm, SafeTrace, SafeCopy, SafeDot, MatMul, SafeClip) are themselves compared with the definition those rules assume (or an equivalent library call), so a changed helper - e.g. a trace that snaps near-identity rotations - is reported at the helper.'),
     "note": "Trusted: modern_robotics 1.1.1 formulas; rewrite set N1..N37; IEEE arithmetic near the 0/pi branch points is not analysed.",
 }
 
@@ -142,7 +148,8 @@ CHECKS["C17"] = {
              "interpreted' is not decided (Numba code generation is the trusted base). R17.2 is path-sensitive: a shape environment follows named slices to the kernel call. Per-joint tables of the arm passed whole (extent num_dof) are compared with sliced vectors at kernel call sites."
              " R17.1 also checks kernel-to-kernel call arguments: a slice passed to another kernel (Norm(Vs[3:5])) must have the extent that kernel's contract reads."
              " R17.3: direction of the (screw table, joint vector) contract - the seven kernels taking both are re-analysed with cols(table) = n + slack, slack >= 0: every index must stay in bounds when the table has more columns than the vector has entries (the Python layers pass the whole table with a caller-length vector)."
-             ' R17.1 also reports an index whose bound against a contract extent cannot be signed when the smallest admissible size (1 for an extent, 0 for slack) is a witness for which the index lies outside (e.g. a loop over the 6 rows of the screw table indexing the joint vector).'),
+             ' R17.1 also reports an index whose bound against a contract extent cannot be signed when the smallest admissible size (1 for an extent, 0 for slack) is a witness for which the index lies outside (e.g. a loop over the 6 rows of the screw table indexing the joint vector).'
+             ' R17.4: an explicit @jit signature declares no integer scalar type for a parameter the kernel uses as a value (arithmetic, stored, returned, passed on) - Numba would truncate a real argument silently in the compiled kernel only.'),
     "note": "Trusted: shape contracts in sa/engine/mrspec.py (docstrings); Numba code generation; callers not analysed pass arrays that satisfy the contracts.",
 }
 
@@ -160,7 +167,8 @@ CHECKS["C05"] = {
              "product of exponentials to 1e-7 is not decided here (kernel: C02). Also: R05.7 the backup used by restoreOriginalEE is refreshed whenever the home tool pose is rewritten for a new base; R05.8 closure obligations on the port primitives FK reaches; the clamp of thetaProtector is decided structurally (each out-of-range side replaced by the bound it violates, guard admits every clamp)."
              " R05.11: pose fields that can come to share one object (the home tool pose and its backup, handed over by plain assignment in restoreOriginalEE) are never mutated in place, only rebound; an in-place writer on either makes a later restore return the changed pose."
              " R05.12: no kernel or helper that an Arm method hands a view of its stored joint vector to (angleMod hands its argument back, reshape is a view) writes into that argument (effects summary of the callee)."
-             " R05.12 also covers stores the method itself makes into such a view."),
+             " R05.12 also covers stores the method itself makes into such a view."
+             ' The joint-limit clamp is decided by exhaustive case analysis (sa/rules/clampcase.py): thetaProtector is interpreted element-wise on one representative per order cell of (joint value, lower limit, upper limit, numeric constants in the code) with np.any guards explored both ways; in every cell the result must be the clamp to the stored limits. R05.14: the body screw list is re-derived from the current home pose and space screws after the last write of either (typestate shared with C06 R06.1).'),
     "note": "Trusted: FKinSpace (C02); parameters documented as transforms are transforms; num_dof >= 1.",
 }
 
@@ -191,7 +199,8 @@ CHECKS["C07"] = {
              "leave the state coherent on every exit; the limit-respecting kernel minus its clamp equals IKinSpace (which equals "
              "the reference). Local convergence and 'unreachable => error above tolerance' are numerical and not decided. Also: R07.6 (effects summary) no IK kernel writes the storage of the start vector it is given, so a failed solve cannot move the arm's stored joints; R07.7 closure obligations on the primitives the solvers reach."
              " R07.8: on the success path of IKFree the pose compared with the goal is FK of the joint vector that is returned (not the solver's residual of a clamped evaluation). R07.9: the limit-respecting kernel clamps the start vector before its first error evaluation (or every caller hands it a vector drawn inside the limits), so a solve that stops at iteration 0 cannot return joints outside the limits."
-             " R07.10: Arm.FK, through which every solver exit writes the state, stores the joint vector it evaluated (the clamped one when it clamps) together with the pose of that vector."),
+             " R07.10: Arm.FK, through which every solver exit writes the state, stores the joint vector it evaluated (the clamped one when it clamps) together with the pose of that vector."
+             ' R07.10 includes the clamp case analysis. R07.11: a method that returns the array it handed to self.FK(...) (IKFree) relies on the clamp working in place - the case analysis also tracks whether the array returned on a clamping path is the argument object.'),
     "note": "Trusted: FKinSpace/JacobianSpace/MatrixLog6/Adjoint (C01/C02); documented parameter roles.",
 }
 
@@ -206,7 +215,8 @@ CHECKS["C08"] = {
              "Arm.massMatrix is literally a sum of congruences J_i^T G_i J_i (symmetric PSD by construction); the arm-level "
              "wrappers call the kernels with arguments in role order, 1-D tip loads and matching return arity. Symmetry / "
              "definiteness as numbers, FD o ID = id, energy conservation and agreement of Arm.inverseDynamics/inverseDynamicsC "
-             "with the recursion are numerical identities and are NOT decided. Also (R08.4): dependence conformance inside Arm.inverseDynamics - the base step carries (0,0,0,-g) through an operator that reads the same model inputs (joint value, screw, link frames) as the general step's propagation operator."),
+             "with the recursion are numerical identities and are NOT decided. Also (R08.4): dependence conformance inside Arm.inverseDynamics - the base step carries (0,0,0,-g) through an operator that reads the same model inputs (joint value, screw, link frames) as the general step's propagation operator."
+             ' R08.2 also holds jacobianLink to its definition hstack(Ad(inv(FKLink(theta, i))) @ JacobianSpace(prefix i + 1), zeros), computed from the arguments of the call (rule shared with C06).'),
     "note": "Trusted: modern_robotics 1.1.1 recursion as the physics reference; rewrite set N1..N37.",
 }
 
@@ -237,7 +247,8 @@ CHECKS["C18"] = {
              "sphere samplers satisfy x^2+y^2+z^2 = 1 identically; chainJacobian follows the JacobianSpace recurrence; lookAt "
              "builds a right-handed frame. Geodesic/metric relations as numbers and the optimiser-based helper are not decided. Helper formulas (IKPath, closeLinearGap, midpoint, lookAt, chainJacobian, tripleUnit) are decided by normal-form equality with reference implementations written from the definitions; R18.7 closure obligations."
              " R18.2 also bounds the in-place stores of tm.angleMod to the rotation rows 3..5 of the six-vector. R18.4 decides lookAt structurally when it is not written like the reference: on every returning path the result is tm(M) with the position kept, z = unit(target - position), y = z x x and x a unit vector orthogonal to z (unit(u x z), or a constant unit vector orthogonal to u only under a fact that |u x z| vanishes)."
-             ' R18.9 accepts any common displacement of the two probes (the step parameter or one expression used on both sides) and requires the quotient to divide by twice that very displacement.'),
+             ' R18.9 accepts any common displacement of the two probes (the step parameter or one expression used on both sides) and requires the quotient to divide by twice that very displacement.'
+             ' R18.10: no helper of faser_general / basic_helpers that returns an array, list or transform carries a memoising decorator (lru_cache, cache, ...): results are fresh objects on every call.'),
     "note": "Trusted: exp/log primitives (C01); NumPy element-wise semantics.",
 }
 
@@ -271,7 +282,8 @@ CHECKS["C20"] = {
              " R20.1 is path-based: on every path of disp the renderer receives the parameters themselves (matrix, nd, ...) or a view/reshape of them, never a value-modified copy."
              " R20.7: the payload of a Screw / Wrench is stored as a 6x1 column on every path of Screw.__init__ (reshape to (6,1), a (6,1) zero column, or the argument itself only under the fact shape == (6,1)): disp indexes wrenches over that grid."
              " R20.8: indexing a transform returns the entry of its six-vector unchanged (lists of transforms are rendered cell by cell through tm.__getitem__)."
-             ' R20.2 for arrays of 2 and more dimensions is decided by case analysis: the body of dispa is specialised to ndim = 2..5 and shape[0] = 0..4 (constants propagated, constant tests folded, loops unrolled) and on every remaining path the recursive renderings must be rows 0..shape[0]-1 once each, in order - however the loop over the first axis is written; an unconditional read of row 0 of an empty table is reported as such.'),
+             ' R20.2 for arrays of 2 and more dimensions is decided by case analysis: the body of dispa is specialised to ndim = 2..5 and shape[0] = 0..4 (constants propagated, constant tests folded, loops unrolled) and on every remaining path the recursive renderings must be rows 0..shape[0]-1 once each, in order - however the loop over the first axis is written; an unconditional read of row 0 of an empty table is reported as such.'
+             ' R20.9: every whole store of self.TAA in class tm is a 6x1 column by construction or is followed by TAAtoTM() (which reshapes it) on every path, so tm.__getitem__ - through which lists of transforms are rendered - never meets a flat six-vector.'),
     "note": "Trusted: Python string formatting of finite floats; the stated input kinds.",
 }
 
@@ -288,7 +300,8 @@ CHECKS["C13"] = {
              "built at the identity base with the last accumulated pose as tool home. FK equality with the file's semantics to "
              "1e-6 is numerical and not decided. The pose bookkeeping of the chain walk is decided by a symbolic pose walk (products of origins on every path of one iteration, with an inferred loop invariant); locals are identified by role, not by name."
              " R13.5: Arm.FK evaluates the loaded chain at the joint vector it is given or at its clamp to the limits only (no folding of in-limit joint values before the product of exponentials)."
-             ' R13.6: every Modern-Robotics primitive in the callee closure of the loader, class tm and Arm.FK (exp / log of rotations that the accumulated joint poses go through) has the normal form of the pinned reference.'),
+             ' R13.6: every Modern-Robotics primitive in the callee closure of the loader, class tm and Arm.FK (exp / log of rotations that the accumulated joint poses go through) has the normal form of the pinned reference.'
+             " R13.5 includes the clamp case analysis: joint values inside the file's limits reach the product of exponentials unchanged, whatever their magnitude."),
     "note": "Trusted: ElementTree parsing; tm composition (C04); the chain is strictly serial (as the property states).",
 }
 
